@@ -155,7 +155,7 @@ Section Nodes12.
     sorted (g_nodes (snd (generate H PathScheme expected db))).
   Proof.
     intros Hwf Hsm Hn0 Hnz Hok.
-    destruct (gen_node_writes H H_len PathScheme expected db st Hwf Hsm Hok) as (pw & dw & orphan & Esnd & Dp & Nd & Lo & PW & Dd & Hfr).
+    destruct (gen_node_writes H H_len PathScheme expected db st Hwf Hsm Hok) as (pw & dw & orphan & Esnd & Dp & Nd & Lo & PW & Dd & Hfr & _).
     specialize (Hfr eq_refl).
     rewrite Esnd, nodes_apply, Hn0, fold_left_app, (nstep_puts pw [] Dp), (nstep_dels dw _ Nd), Dd.
     pose proof (spec_keys_nodup db Hwf Hnz) as NDs.
